@@ -819,7 +819,7 @@ Definition parse_rxn_v2000 (data : list str) : pyres rparsed :=
   if gc =? 0 then Err ValueError else                                   (* EmptyReaction *)
   do l1 <- of_opt IndexError (nth_error data 1);
   if (rc <? 0) || (pc <? rc) || (gc <? pc) then Err OtherError else     (* negative counts: not modelled *)
-  do st <- foldM (rxn_loop (fun d => lift2 (parse_mol_v2000 d)) (L "$MOL") 5 6 1 data)
+  do st <- foldM (rxn_loop (fun d => lift2 (parse_mol_v2000 d)) (L "$MOL") 4 5 1 data)
                  (nat_range (Z.to_nat gc)) (mk_rs 0 [] rc pc gc 0);
   rxn_result (title_of l1) st.
 
